@@ -240,9 +240,12 @@ impl<T: Types> FlushWorker<T> {
             return Ok(());
         }
 
+        // Forget a closed file only after it has been synced successfully:
+        // if the sync fails the file must be retried by the next flush,
+        // otherwise that flush would report success for unsynced data.
         while files.len() > 1 {
-            let f = files.remove(0);
-            f.f.sync_data()?;
+            files[0].f.sync_data()?;
+            files.remove(0);
         }
 
         // The second last and before are all closed,
